@@ -46,4 +46,26 @@ def readAll : RState → List Nat → RState
   | s, [] => s
   | s, n :: ns => readAll (read s n).1 ns
 
+/-- the histories with every stanza that does not name the stream (other sid, other sender) removed -/
+def dropForeign : List FOp → List FOp
+  | [] => []
+  | .pkt p :: os => if p.known then .pkt p :: dropForeign os else dropForeign os
+  | o :: os => o :: dropForeign os
+
+/-! ### who a stanza comes from
+
+A stream is identified by its session id together with the entity it was opened with.  Kinds of
+senders, as probed on the real code by `harness facts` (`senderProbe`): 0 the stream's peer (same full
+address), 1 another resource of the peer's account, 2 the peer's bare address, 3 a third party, 4 the
+peer's server, 5 no `from` at all — the entity on the other side of the XMPP session itself, which
+stamps the address on everything it delivers for somebody else. -/
+
+def senderIsPeer (kind : Nat) : Bool := kind == 0 || kind == 5
+
+/-- the model's answers to one probe: a data packet (number 0, `QQ==`) and then a close request that
+name the stream's session id and come from a sender of that kind -/
+def senderModel (kind : Nat) : Nat × String × String :=
+  let r := recv std ⟨true, 0, [], 0⟩ ⟨senderIsPeer kind, 0, [81, 81, 61, 61]⟩
+  (kind, showReply r.2, showReply (closeRequest r.1 (senderIsPeer kind)).2)
+
 end XmppModel.Ibb
